@@ -42,6 +42,9 @@ class Mod:
             raise AnchorMissing(f"file {rel} not found")
         self.text = self.path.read_text(encoding="utf-8")
         self.tree = ast.parse(self.text, filename=str(self.path))
+        if rel.endswith(".py"):
+            from . import sem       # functions equivalent to their reference counterpart are seen in reference form
+            self.tree = sem.hybridise(self.tree, self.text, rel)
         for node in ast.walk(self.tree):
             for child in ast.iter_child_nodes(node):
                 child._parent = node  # type: ignore[attr-defined]
